@@ -26,8 +26,42 @@ def assigned_keys(f):
     return out
 
 
-def stable_text(f, cond, akeys):
-    """canonical text of cond if it is stable, else None"""
+def assign_counts(f):
+    cnt = getattr(f, "_acnt", None) if hasattr(f, "_acnt") else None
+    out = {}
+    for n in f.walk():
+        a = assigned(n)
+        if a:
+            k = lv(a[0])
+            if k:
+                out[k] = out.get(k, 0) + 1
+        if n["k"] == "Var" and n.get("c") and n["c"][0] is not None:
+            out[n["n"]] = out.get(n["n"], 0) + 1
+        if n["k"] == "Call":
+            for x in args(n):
+                x2 = strip(x)
+                if x2 is not None and x2["k"] == "Unary" and x2["op"] == "&":
+                    k = lv(x2["c"][0])
+                    if k:
+                        out[k] = out.get(k, 0) + 2
+    return out
+
+
+def norm_text(c):
+    """canonical text of a condition: relational tests against constants are rendered with the numeric value"""
+    c = strip(c)
+    if c["k"] == "Binary" and c["op"] in ("==", "!=", "<", ">", "<=", ">="):
+        l, r = strip(c["c"][0]), strip(c["c"][1])
+        if cval(r) is not None and cval(l) is None:
+            return "%s %s #%d" % (src(l), c["op"], cval(r))
+        if cval(l) is not None and cval(r) is None:
+            return "%s %s #%d" % (src(r), SWAP[c["op"]], cval(l))
+    return src(c)
+
+
+def stable_text(f, cond, akeys, once_ok=None):
+    """canonical text of cond if it is stable, else None.  once_ok: keys assigned exactly once in the function
+    (a scalar local set once and tested afterwards is as good as stable)"""
     c = strip(cond)
     if c is None:
         return None
@@ -41,8 +75,10 @@ def stable_text(f, cond, akeys):
             if k is not None:
                 for a in akeys:
                     if k == a or k.startswith(a + "->") or k.startswith(a + ".") or k.startswith(a + "["):
+                        if once_ok is not None and a in once_ok and k == a:
+                            continue
                         return None
-    return src(c)
+    return norm_text(c)
 
 
 def reach(f, start, target_pred, avoid=(), assume=(), from_elem=None):
@@ -65,7 +101,7 @@ def reach(f, start, target_pred, avoid=(), assume=(), from_elem=None):
             return list(path)
         blk = f.blocks[b]
         succs = blk["s"]
-        cond = f.nodes.get(blk.get("tc")) if blk.get("tc") is not None else None
+        cond = branch_cond(f, blk)
         two = cond is not None and len(succs) == 2 and blk.get("tk") != "SwitchStmt"
         for i, s in enumerate(succs):
             if s is None:
